@@ -1,6 +1,7 @@
 package main
 
 import (
+	"github.com/restic/restic/internal/verif/simfs"
 	"context"
 	"encoding/json"
 	"fmt"
@@ -62,6 +63,91 @@ func TestVerifC10(t *testing.T) {
 			var hist []string
 			crashes := 0
 			repairLater := false
+			// scenario: a used blob ends up in two packs that are both partly used, each next to other used
+			// blobs: A (crashed, its packs are indexed later), B sharing files with A, repair index, then
+			// reduced versions of both, and B's first snapshot forgotten
+			scenario := tp.Choose(4) == 0
+			if scenario {
+				a := w.genTree(10)
+				b := w.genTree(8)
+				for i, k := range append([]*simfs.Node(nil), a.Kids...) {
+					if i%2 == 0 {
+						b.Remove(k.Name)
+						b.Add(k.Clone())
+					}
+				}
+				// "A crashed after its last pack was stored": run it to the end, then take away what comes after
+				// the packs (index files and the snapshot)
+				idx0 := map[string]bool{}
+				for _, n := range w.store.Names(backend.IndexFile) {
+					idx0[n] = true
+				}
+				snap0 := map[string]bool{}
+				for _, n := range w.snapshotIDs() {
+					snap0[n] = true
+				}
+				if !w.backupOK(a, BackupOptions{}, "backup A") {
+					return
+				}
+				for _, n := range w.store.Names(backend.IndexFile) {
+					if !idx0[n] {
+						w.store.Del(backend.Handle{Type: backend.IndexFile, Name: n})
+					}
+				}
+				gone := map[string]bool{}
+				for _, n := range w.snapshotIDs() {
+					if !snap0[n] {
+						w.store.Del(backend.Handle{Type: backend.SnapshotFile, Name: n})
+						gone[n] = true
+					}
+				}
+				w.dropGone(gone, "history", "crash of backup A before its index was stored")
+				f := fault{Kind: "crash", At: 0}
+				before := map[string]bool{}
+				for _, id := range w.snapshotIDs() {
+					before[id] = true
+				}
+				if !w.backupOK(b, BackupOptions{}, "backup B") {
+					return
+				}
+				sB := ""
+				for _, id := range w.snapshotIDs() {
+					if !before[id] {
+						sB = id
+					}
+				}
+				var err error
+				w.free(func() { err = w.cmdRepairIndex(w.newProc("repair-index"), false) })
+				if err != nil {
+					r.Fail("history", "repair-index-failed", "repair index failed: %v", err)
+					return
+				}
+				shrink := func(t *simfs.Node) *simfs.Node {
+					c := t.Clone()
+					for i, k := range append([]*simfs.Node(nil), c.Kids...) {
+						if i%2 == 1 && tp.Choose(2) == 0 {
+							c.Remove(k.Name)
+						}
+					}
+					return c
+				}
+				if !w.backupOK(shrink(a), BackupOptions{}, "backup A'") || !w.backupOK(shrink(b), BackupOptions{}, "backup B'") {
+					return
+				}
+				_ = f
+				hist = append(hist, "backup A (crashed after its last pack)", "backup B (shares files with A)", "repair-index", "backup A'", "backup B'")
+				if sB != "" {
+					w.free(func() { err = w.cmdForget(w.newProc("forget"), []string{sB}, false, PruneOptions{MaxUnused: "5%"}) })
+					if err != nil {
+						r.Fail("history", "forget-failed", "forget failed: %v", err)
+						return
+					}
+					w.dropGone(map[string]bool{sB: true}, "history", "forget")
+					hist = append(hist, "forget(B)")
+				}
+				nBackups = 0
+				crashes++
+			}
 			for i := 0; i < nBackups; i++ {
 				if repairLater && i > 0 {
 					// same tree as the crashed attempt, then repair index: the orphaned packs become duplicates
@@ -115,7 +201,7 @@ func TestVerifC10(t *testing.T) {
 			forget := map[string]bool{}
 			var forgetIDs []string
 			for i, id := range ids {
-				if i > 0 && tp.Choose(2) == 0 {
+				if i > 0 && !scenario && tp.Choose(2) == 0 {
 					forget[id] = true
 					forgetIDs = append(forgetIDs, id)
 				}
@@ -202,6 +288,12 @@ func TestVerifC10(t *testing.T) {
 				if !packIndexed[p] {
 					wantUnrefPacks++
 					wantUnref += uint64(sz)
+				}
+			}
+			if scenario {
+				r.Count("scenario_runs", 1)
+				if wantDup > 0 {
+					r.Count("scenario_runs_with_duplicates", 1)
 				}
 			}
 			// ---- the prune under test (scheduled, fault-free, JSON statistics)
